@@ -82,6 +82,6 @@ Theorem C09_transaction_options_in_source :
      (cmd_hide, exp_hide); (cmd_unhide, exp_unhide); (cmd_rename, exp_rename);
      (cmd_commit, exp_commit); (cmd_uncommit, exp_uncommit); (cmd_clean, exp_clean);
      (cmd_spill, exp_spill); (cmd_undo, exp_undo); (cmd_redo, exp_redo); (cmd_reset, exp_reset);
-     (cmd_repair, exp_repair); (cmd_edit, exp_edit); (cmd_rebase, exp_rebase)] = true.
+     (cmd_repair, exp_repair); (cmd_edit, exp_edit); (cmd_rebase, exp_rebase); (cmd_squash, exp_squash)] = true.
 Proof. vm_compute. reflexivity. Qed.
 Print Assumptions C09_transaction_options_in_source.
